@@ -47,7 +47,9 @@ def expected(s):
 def main():
     engine = yaql.YaqlFactory().create()
     cases = 0
-    for n in range(0, 9):
+    import os
+    for n in range(0, 11 if os.environ.get('VERIF_TIER') == 'thorough'
+                   else 9):
         for toks in itertools.product('v,n', repeat=n):
             s = ''.join(toks)
             cases += 1
